@@ -210,5 +210,12 @@ def _derived_in_key(body_node, var, key_names):
       tnames = {x.id for t in st.targets for x in ast.walk(t)
                 if isinstance(x, ast.Name)}
       if tnames & key_names and var in names_read(st.value):
+        # a constraint unpacked into several dimension identifiers is only
+        # identified by ALL of them: ('TRAPEZOID', cond_dim, group) is shared
+        # by every trust with that conditional feature
+        dims = {t for t in tnames if 'dim' in t.lower()}
+        if isinstance(st.targets[0], ast.Tuple) and dotted(
+            st.value) == var and not dims <= key_names:
+          return False
         return True
   return False
